@@ -27,7 +27,7 @@ func pairsStr(pp [][2]string) string {
 
 func runC13(ctx *Ctx) {
 	var paths []string
-	enumStrings([]byte{'/', '{', '}', 'a', 'b'}, ctx.Budget(7, 9), func(s []byte) { paths = append(paths, string(s)) })
+	enumStrings([]byte{'/', '{', '}', 'a', 'b'}, ctx.Len(7, 9), func(s []byte) { paths = append(paths, string(s)) })
 	r := ctx.Rng.Fork()
 	for i := 0; i < ctx.Budget(20000, 500000); i++ {
 		paths = append(paths, string(r.Bytes([]byte{'/', '/', '{', '}', 'a', 'b', 'i', 'd', ' ', 0xc3}, r.Intn(20))))
